@@ -256,7 +256,9 @@ func Diagnose(proj []Task, init Snapshot, steps []Step) map[string]string {
 					if last.ok {
 						set("c04", "skip-undetected-change:"+t.Method+":"+changeClass(t, last.fp, fp, last.at))
 					} else {
-						set("c04", "skip-after-"+last.res+"-and-change:"+t.Method)
+						// the task's most recent attempt (at another fingerprint) did not succeed and
+						// it is skipped all the same: the state that attempt left behind
+						set("c04", "skip-after-"+last.res+":"+t.Method)
 					}
 				}
 			}
@@ -279,6 +281,9 @@ func Diagnose(proj []Task, init Snapshot, steps []Step) map[string]string {
 					set("c05", l)
 				case !expect && st.Res == "skipped":
 					switch {
+					case listSince[o.Tid]:
+						// --list --json recorded the changed fingerprint in between
+						set("c05", "skip-after-listjson:"+t.Method)
 					case last.key != key:
 						set("c05", "undetected-change:"+t.Method+":"+changeClass(t, last.fp, fp, last.at))
 					case !gens:
